@@ -40,7 +40,8 @@ pub struct UrlSchemes { pub id: u64 }
 // opaque=: the `scheme=a,b&..` query-string splitting of the :url:1.0 capability (str::split / filter_map / flatten chain: not modelled)
 #[verifier::external_body]
 pub fn url_schemes_of(query: &str) -> (r: UrlSchemes) { unimplemented!() }
-pub enum ReadError { UnexpectedXmlEvent(Event), Uri(UriError), Other }
+pub struct BoxErr;
+pub enum ReadError { UnexpectedXmlEvent(Event), Uri(UriError), SessionIdParse(ParseIntError), Other(BoxErr) }
 impl From<UriError> for ReadError { #[verifier::external_body] fn from(e: UriError) -> (r: ReadError) { unimplemented!() } }
 impl From<XmlError> for ReadError { #[verifier::external_body] fn from(e: XmlError) -> (r: ReadError) { unimplemented!() } }
 pub mod rpc { pub struct Error { pub x: u8 } }     // (Item::RpcError is unused in this unit)
@@ -165,9 +166,26 @@ impl Capabilities {
 } // mod reader
 
 // ---------- session establishment: Session::new (C12) ----------
-pub enum Error { VersionNegotiation, Transport, Read }
+pub enum Error { VersionNegotiation, Transport, Read, InvalidSessionId { session_id: u32 } }
+impl Error { #[verifier::external_body] pub fn into(self) -> (r: BoxErr) { unimplemented!() } }
 // NonZeroU32 (std): a u32 that is not 0
 pub struct NonZeroU32 { pub n: u32 }
+impl NonZeroU32 {
+    // std: None exactly for 0
+    pub fn new(n: u32) -> (r: Option<NonZeroU32>) ensures r is Some <==> n != 0, r matches Some(x) ==> x.n == n { if n != 0 { Some(NonZeroU32 { n }) } else { None } }
+}
+// str::parse::<T>() for the integer types (std): Ok(v) iff the text is a decimal numeral whose value fits T
+pub uninterp spec fn dec_value(s: &str) -> Option<nat>;
+pub trait DecParse: Sized { spec fn of_nat(v: nat) -> Option<Self>; }
+impl DecParse for NonZeroU32 { open spec fn of_nat(v: nat) -> Option<Self> { if 1 <= v <= 0xFFFF_FFFF { Some(NonZeroU32 { n: v as u32 }) } else { None } } }
+impl DecParse for u32 { open spec fn of_nat(v: nat) -> Option<Self> { if v <= 0xFFFF_FFFF { Some(v as u32) } else { None } } }
+impl DecParse for usize { open spec fn of_nat(v: nat) -> Option<Self> { if v <= usize::MAX { Some(v as usize) } else { None } } }
+impl DecParse for u64 { open spec fn of_nat(v: nat) -> Option<Self> { if v <= u64::MAX { Some(v as u64) } else { None } } }
+#[verifier::external_body]
+pub fn parse_dec<T: DecParse>(s: &str) -> (r: Result<T, ParseIntError>)
+    ensures match r { Ok(v) => dec_value(s) matches Some(n) && T::of_nat(n) == Some(v),
+                      Err(_) => dec_value(s) is None || T::of_nat(dec_value(s)->0) is None }
+{ unimplemented!() }
 impl Clone for NonZeroU32 { fn clone(&self) -> (r: Self) ensures r == *self { NonZeroU32 { n: self.n } } }
 impl Copy for NonZeroU32 {}
 //@item file=netconf/src/session.rs kind=struct name=SessionId sub=/pub struct SessionId(NonZeroU32)=>#[derive(Clone, Copy)] pub struct SessionId(pub NonZeroU32)/
@@ -240,6 +258,21 @@ pub fn try_join2(a: SendFut, b: RecvFut) -> (r: Result<((), ServerHello), Error>
 
 pub mod establish {
 use super::*;
+impl SessionId {
+//@extract id=session_id_new file=netconf/src/session.rs impl=/^impl SessionId/ fn=new rules=R1,R7 r7map=result r7pathmap=result vis=pub
+//@contract
+        ensures res is Ok <==> n != 0, res matches Ok(sid) ==> sid.0.n == n,                     // OBL:C12.session_id.zero_is_rejected
+//@end
+//@extract id=session_id_from_str file=netconf/src/session.rs impl=/impl FromStr for SessionId/ fn=from_str rules=R1,R7 r7map=result r7pathmap=result vis=pub
+//@+ sub=/s.parse()=>parse_dec(s);;Self::Err::=>ReadError::/
+//@sig pub fn from_str(s: &str) -> (res: Result<Self, ReadError>)
+//@contract
+        ensures
+            // C12: the session-id of a hello is accepted exactly if it is a decimal number in 1 ..= 2^32 - 1, and it is that number
+            res is Ok <==> (dec_value(s) matches Some(v) && 1 <= v <= 0xFFFF_FFFF),                  // OBL:C12.session_id.valid_non_zero_32_bit
+            res matches Ok(sid) ==> dec_value(s) == Some(sid.0.n as nat),                             // OBL:C12.session_id.value_is_the_hellos
+//@end
+}
 impl ServerHello {
 //@extract id=server_hello_session_id file=netconf/src/message/hello.rs impl=/^impl ServerHello/ fn=session_id rules=R1 vis=pub
 //@contract
